@@ -46,23 +46,37 @@ type vfStream[R any, S any] struct {
 	// holdCancel: cancellation of the stream context is not noticed by Recv until released (gRPC delivers a
 	// cancellation to a blocked Recv asynchronously; the harness owns that delay)
 	holdCancel chan struct{}
+	// peerDone (client streams only) is closed when the peer's final status / EOF arrives: grpc-go marks the stream done
+	// at that moment (http2Client.closeStream on trailers) and a Send that is blocked on flow control returns io.EOF
+	// (writeQuota.get selects on the stream's done channel) instead of waiting for a window that will never open. Only
+	// blocked Sends look at it here; an unblocked Send keeps succeeding until Recv has handed the status over (real
+	// gRPC would already refuse it - the proxy then merely learns of the end a little earlier).
+	peerDone     chan struct{}
+	peerDoneOnce sync.Once
+	clientSide   bool // the proxy holds the client end: an EOF from the peer means the whole stream is over
 }
 
 func newVFStream[R any, S any](parent context.Context, name string) *vfStream[R, S] {
 	ctx, cancel := context.WithCancel(parent)
-	return &vfStream[R, S]{name: name, ctx: ctx, cancel: cancel, recvQ: make(chan vfRecvItem[R], 4096), gate: make(chan struct{})}
+	return &vfStream[R, S]{name: name, ctx: ctx, cancel: cancel, recvQ: make(chan vfRecvItem[R], 4096), gate: make(chan struct{}), peerDone: make(chan struct{})}
 }
 
 func (s *vfStream[R, S]) recv() (*R, error) {
 	// deliver queued items before noticing cancellation (gRPC hands over what it already received)
+	done := func(it vfRecvItem[R]) (*R, error) {
+		if it.err != nil && s.clientSide {
+			s.peerDoneOnce.Do(func() { close(s.peerDone) })
+		}
+		return it.val, it.err
+	}
 	select {
 	case it := <-s.recvQ:
-		return it.val, it.err
+		return done(it)
 	default:
 	}
 	select {
 	case it := <-s.recvQ:
-		return it.val, it.err
+		return done(it)
 	case <-s.ctx.Done():
 		s.mu.Lock()
 		hold := s.holdCancel
@@ -120,6 +134,8 @@ func (s *vfStream[R, S]) send(m *S) error {
 		case <-gate:
 		case <-s.ctx.Done():
 			return status.Error(codes.Canceled, "context canceled")
+		case <-s.peerDone:
+			return io.EOF
 		}
 	}
 }
@@ -127,8 +143,18 @@ func (s *vfStream[R, S]) send(m *S) error {
 // ---- harness side
 
 func (s *vfStream[R, S]) Push(v *R)       { s.recvQ <- vfRecvItem[R]{val: v} }
-func (s *vfStream[R, S]) PushErr(e error) { s.recvQ <- vfRecvItem[R]{err: e} }
-func (s *vfStream[R, S]) PushEOF()        { s.recvQ <- vfRecvItem[R]{err: io.EOF} }
+func (s *vfStream[R, S]) PushErr(e error) {
+	s.recvQ <- vfRecvItem[R]{err: e}
+	if s.clientSide {
+		s.peerDoneOnce.Do(func() { close(s.peerDone) })
+	}
+}
+func (s *vfStream[R, S]) PushEOF() {
+	s.recvQ <- vfRecvItem[R]{err: io.EOF}
+	if s.clientSide { // on a server stream EOF only means the client half-closed: the server may go on sending
+		s.peerDoneOnce.Do(func() { close(s.peerDone) })
+	}
+}
 func (s *vfStream[R, S]) Kill()           { s.cancel() }
 
 func (s *vfStream[R, S]) Stall() {
@@ -241,6 +267,7 @@ type vfAdminClient struct {
 func (c *vfAdminClient) StreamWorkflowReplicationMessages(ctx context.Context, _ ...grpc.CallOption) (adminservice.AdminService_StreamWorkflowReplicationMessagesClient, error) {
 	md, _ := metadata.FromOutgoingContext(ctx)
 	cs := &vfClientStream{vfStream: newVFStream[vfResp, vfReq](ctx, "client"), OutgoingMD: md.Copy()}
+	cs.clientSide = true
 	if c.OnOpen != nil {
 		if err := c.OnOpen(ctx, cs); err != nil {
 			return nil, err
